@@ -35,9 +35,54 @@ type goGen struct {
 	ntmp   int
 	stats  map[string]int
 	inLoop int
+	extras []extraDecl
 }
 
-var namePool = []string{"a", "b", "x", "y", "i", "n", "s", "t", "v", "k", "err2", "g0", "c0", "f1"}
+// shadowed: a local declaration of the name is visible (the package-level entity is not).
+func (g *goGen) shadowed(name string) bool {
+	for i := len(g.scopes) - 1; i >= 1; i-- {
+		for _, v := range g.scopes[i] {
+			if v.name == name {
+				return true
+			}
+		}
+	}
+	return false
+}
+
+func (g *goGen) extraOf(kinds ...string) *extraDecl {
+	var cand []*extraDecl
+	for i := range g.extras {
+		for _, k := range kinds {
+			if g.extras[i].kind == k && !g.shadowed(g.extras[i].name) {
+				cand = append(cand, &g.extras[i])
+			}
+		}
+	}
+	if len(cand) == 0 {
+		return nil
+	}
+	return cand[g.r.Intn(len(cand))]
+}
+
+var namePool = []string{"a", "b", "x", "y", "i", "n", "s", "t", "v", "k", "err2", "g0", "c0", "f1",
+	// local variables named like predeclared / XGo builtin identifiers
+	"any", "echo", "cap", "min", "lines", "bigint", "real", "open"}
+
+// Names that mean something to Go (predeclared) or to XGo (builtin package: cl/builtin.go) and that
+// the generator does not otherwise rely on: used as package-level type / const / var / func names.
+var specialTypeNames = []string{"any", "bigint", "bigrat", "bigfloat", "int128", "uint128", // XGo builtin types
+	"bool", "byte", "rune", "int8", "int16", "int32", "int64", "uint", "uint8", "uint16", "uint32", "uint64", "uintptr",
+	"float32", "float64", "complex64", "complex128", "comparable"}
+var specialValueNames = []string{"echo", "print", "println", "printf", "errorf", "fprint", "fprintln", "fprintf", "sprint", "sprintln",
+	"sprintf", "open", "create", "lines", "errorln", "fatal", "blines", "newRange", // XGo builtin functions
+	"cap", "clear", "close", "complex", "copy", "delete", "imag", "max", "min", "new", "panic", "real", "recover", "iota"}
+
+type extraDecl struct {
+	name string
+	kind string // type | const | var | func
+	file int    // 0: main file, 1: second file
+}
 
 func (g *goGen) push() { g.scopes = append(g.scopes, nil) }
 func (g *goGen) pop()  { g.scopes = g.scopes[:len(g.scopes)-1] }
@@ -86,7 +131,7 @@ func (g *goGen) freshInScope() string {
 
 func (g *goGen) intExpr(depth int) string {
 	vs := g.vars(tInt)
-	k := g.r.Intn(10)
+	k := g.r.Intn(11)
 	if depth <= 0 {
 		k = g.r.Intn(3)
 	}
@@ -126,6 +171,15 @@ func (g *goGen) intExpr(depth int) string {
 		return "(" + g.intExpr(depth-1) + ") * 2"
 	case 8:
 		return "strings.Count(" + g.strExpr(depth-1) + ", \"a\")"
+	case 9:
+		if e := g.extraOf("const", "var", "func"); e != nil {
+			g.stats["use_special_"+e.kind]++
+			if e.kind == "func" {
+				return e.name + "(" + g.intExpr(depth-1) + ")"
+			}
+			return e.name
+		}
+		return "int(C0) - " + g.intExpr(depth-1)
 	default:
 		return "int(C0) - " + g.intExpr(depth-1)
 	}
@@ -169,7 +223,7 @@ func (g *goGen) block(d, depth, n int) {
 }
 
 func (g *goGen) stmt(d, depth int) {
-	k := g.r.Intn(26)
+	k := g.r.Intn(28)
 	if depth <= 0 && k >= 8 && k <= 17 {
 		k = g.r.Intn(8)
 	}
@@ -438,6 +492,24 @@ func (g *goGen) stmt(d, depth int) {
 		g.line(d, "}{a: %s, s: %s}", g.intExpr(1), g.strExpr(1))
 		g.declare(n, tFn+6)
 		g.line(d, "_ = %s.a + %s.b + len(%s.s) + %s.ea + %s.EM()", n, n, n, n, n)
+	case 26, 27: // a package-level type named like a predeclared / XGo builtin type
+		e := g.extraOf("type")
+		if e == nil {
+			g.line(d, "G0++")
+			return
+		}
+		g.stats["use_special_type"]++
+		n := g.freshInScope()
+		if g.r.Bool() {
+			g.line(d, "var %s %s", n, e.name)
+			g.declare(n, tFn+8)
+			g.line(d, "%s.v = %s", n, g.intExpr(1))
+		} else {
+			g.line(d, "%s := &%s{v: %s}", n, e.name, g.intExpr(1))
+			g.declare(n, tFn+8)
+		}
+		g.line(d, "_ = []%s{*FX%s(%s)}", e.name, e.name, "nil")
+		g.line(d, "_ = %s", n)
 	default: // interface embedding another interface and a package-qualified one
 		n := g.freshInScope()
 		g.line(d, "var %s I1", n)
@@ -448,9 +520,47 @@ func (g *goGen) stmt(d, depth int) {
 	}
 }
 
-func genGoProgram(r *vh.Rand) (string, map[string]int) {
+// genGoProgram returns the program's files (1 or 2; text valid as Go and as XGo) and statistics.
+func genGoProgram(r *vh.Rand) ([]string, map[string]int) {
 	g := &goGen{r: r, stats: map[string]int{}}
 	g.b.WriteString("package main\n\nimport (\n\t\"fmt\"\n\t\"strings\"\n)\n\n")
+	// package-level declarations named like predeclared Go identifiers and XGo builtins
+	two := r.Chance(40)
+	used := map[string]bool{}
+	for i, n := 0, r.Intn(5); i < n; i++ {
+		var e extraDecl
+		if r.Chance(45) {
+			e = extraDecl{name: specialTypeNames[r.Intn(len(specialTypeNames))], kind: "type"}
+		} else {
+			e = extraDecl{name: specialValueNames[r.Intn(len(specialValueNames))], kind: []string{"const", "var", "func"}[r.Intn(3)]}
+		}
+		if used[e.name] {
+			continue
+		}
+		used[e.name] = true
+		if two && r.Bool() {
+			e.file = 1
+		}
+		g.extras = append(g.extras, e)
+		g.stats["special_"+e.kind]++
+	}
+	extraText := func(e extraDecl) string {
+		switch e.kind {
+		case "type":
+			return fmt.Sprintf("type %s struct {\n\tv int\n}\n\n", e.name)
+		case "const":
+			return fmt.Sprintf("const %s = %d\n\n", e.name, 40+len(e.name))
+		case "var":
+			return fmt.Sprintf("var %s = %d\n\n", e.name, len(e.name))
+		}
+		return fmt.Sprintf("func %s(a int) int {\n\treturn a + %d\n}\n\n", e.name, len(e.name))
+	}
+	// references in TYPE EXPRESSIONS that come textually before the declarations (first file, top)
+	for _, e := range g.extras {
+		if e.kind == "type" {
+			fmt.Fprintf(&g.b, "type U%s struct {\n\tf %s\n\tp *%s\n}\n\nfunc FX%s(p *%s) *%s {\n\tif p == nil {\n\t\treturn &%s{}\n\t}\n\treturn p\n}\n\n", e.name, e.name, e.name, e.name, e.name, e.name, e.name)
+		}
+	}
 	// some package-level declarations are placed AFTER their uses
 	late := r.Bool()
 	decls := "var _, _ = fmt.Sprint, strings.Count\n\nconst C0 = 10\n\nconst C1 int = 3\n\nvar G0, G1 = 1, \"s\"\n\nvar Ch = make(chan int, 100)\n\n" +
@@ -460,6 +570,12 @@ func genGoProgram(r *vh.Rand) (string, map[string]int) {
 		"type E0 struct {\n\tea int\n}\n\nfunc (e *E0) EM() int {\n\treturn e.ea\n}\n\n" +
 		"type T1 struct {\n\tE0\n\t*T0\n\tstrings.Builder\n\t*strings.Reader\n\tTagged int `json:\"tagged,omitempty\"`\n\tanon   struct {\n\t\tp, q int\n\t}\n}\n\n" +
 		"type T2 struct {\n\tT1\n\tI0\n}\n\ntype I1 interface {\n\tI0\n\tfmt.Stringer\n\tM1(a, b int) (int, error)\n}\n\n"
+	lateExtras := r.Chance(70)
+	for _, e := range g.extras {
+		if e.file == 0 && !lateExtras {
+			decls += extraText(e)
+		}
+	}
 	if !late {
 		g.b.WriteString(decls)
 	}
@@ -505,5 +621,26 @@ func genGoProgram(r *vh.Rand) (string, map[string]int) {
 	if late {
 		g.b.WriteString("\n" + decls)
 	}
-	return g.b.String(), g.stats
+	if lateExtras {
+		g.b.WriteString("\n")
+		for _, e := range g.extras {
+			if e.file == 0 {
+				g.b.WriteString(extraText(e))
+			}
+		}
+	}
+	files := []string{g.b.String()}
+	if two {
+		var b strings.Builder
+		b.WriteString("package main\n\n")
+		// the second file also refers to declarations of the first one
+		b.WriteString("func More(a int) int {\n\treturn F0(a, G1) + C1\n}\n\n")
+		for _, e := range g.extras {
+			if e.file == 1 {
+				b.WriteString(extraText(e))
+			}
+		}
+		files = append(files, b.String())
+	}
+	return files, g.stats
 }
